@@ -128,13 +128,9 @@ func cmdVM(args []string) error {
 	maxSteps := fs.Int("maxsteps", 3000, "recorded steps per run")
 	maxNext := fs.Int("maxnext", 60, "Next calls per run")
 	fs.Parse(args)
-	w, err := newNDWriter(*out)
-	if err != nil {
-		return err
-	}
-	err = readNDJSON(*in, func(c map[string]any) error { return w.write(vmCase(c, *maxSteps, *maxNext)) })
-	if err != nil {
-		return err
-	}
-	return w.close()
+	return runBatch(*in, *out, 1, 8*time.Second,
+		func(c map[string]any, beat func()) map[string]any { return vmCase(c, *maxSteps, *maxNext) },
+		func(c map[string]any) map[string]any {
+			return vlib.M{"id": c["id"], "src": c["src"], "input": c["input"], "cancel": c["cancel"], "mask": c["mask"], "hang": true}
+		})
 }
